@@ -1,6 +1,7 @@
 package checks
 
 import (
+	"context"
 	"fmt"
 	"strings"
 	"time"
@@ -69,6 +70,10 @@ func describeCalls(cs []fixture.DrvCall) string {
 
 func (c *c18) RunCase(w *core.Worker, idx int, seed uint64, res *core.CaseResult) {
 	rng := core.NewRng(seed)
+	if idx%6 == 5 {
+		c.wireCase(w, idx, rng, res)
+		return
+	}
 	commitDS := "candidate"
 	if idx%16 >= 8 {
 		commitDS = "running"
@@ -353,3 +358,156 @@ type doubleFault struct{ drv *fixture.FakeDrv }
 
 func (d *doubleFault) arm()    { d.drv.ArmDouble() }
 func (d *doubleFault) disarm() { d.drv.Arm(0, "", "") }
+
+// wireCase: the same property observed at the far end of the wire. The datastore gets the production NETCONF target
+// (target.New: scrapligo driver wrapper, scrapligo, SSH) connected to a NETCONF device on loopback that records the rpcs
+// it receives, keeps a candidate and answers according to a script: ok, rpc-error, rpc-error with the base namespace
+// bound to a prefix, or a warning. What the scripted netconf.Driver of the other cases cannot see - how the wrapper reads
+// the replies of a real device - is in the loop here.
+func (c *c18) wireCase(w *core.Worker, idx int, rng *core.Rng, res *core.CaseResult) {
+	commitDS := "candidate"
+	if idx%12 == 11 {
+		commitDS = "running"
+	}
+	dev, err := fixture.NewNCDevice()
+	if err != nil {
+		res.Inconclusive("C18/wire/no-device", "%v", err)
+		return
+	}
+	defer dev.Close()
+	sbi := &config.SBI{Type: "netconf", Address: "127.0.0.1", Port: dev.Port(), ConnectRetry: time.Second, Timeout: 3 * time.Second,
+		Credentials:    &config.Creds{Username: "u", Password: "p"},
+		NetconfOptions: &config.SBINetconfOptions{IncludeNS: idx%2 == 0, CommitDatastore: commitDS}}
+	c.h.pool = poolFor(histPools[idx%4])
+	var tgErr error
+	c.h.mkTarget = func() target.Target {
+		scb := schemaClient.NewSchemaClientBound(fixture.SchemaConfig().GetSchema(), c.h.env.Schema)
+		tg, err := target.New(context.Background(), "c18w", sbi, scb)
+		if err != nil {
+			tgErr = err
+		}
+		return tg
+	}
+	run := c.h.start(rng, res, false, false)
+	defer run.close()
+	defer func() { c.h.mkTarget = nil }()
+	if tgErr != nil {
+		res.Inconclusive("C18/wire/connect", "%v", tgErr)
+		return
+	}
+	cfgDesc := fmt.Sprintf("wire commit-datastore=%s include-ns=%v", commitDS, idx%2 == 0)
+	res.Tracef("%s", cfgDesc)
+	editOp := "edit-config:" + commitDS
+	describe := func(rpcs []fixture.NCRpc) string {
+		l := []string{}
+		for _, r := range rpcs {
+			l = append(l, r.Op+"="+r.Style)
+		}
+		return strings.Join(l, ", ")
+	}
+	faults := 0
+	for s := 0; s < 4 && len(res.Findings) == 0; s++ {
+		step := run.genStep(2)
+		res.Tracef("step %d: %s", s, stepString(step))
+		type plan struct{ op, style string }
+		plans := []plan{{editOp, "error"}, {editOp, "error-prefixed"}}
+		if commitDS == "candidate" {
+			plans = append(plans, plan{"commit", "error"}, plan{"commit", "error-prefixed"})
+		}
+		for _, p := range plans {
+			if len(res.Findings) > 0 {
+				break
+			}
+			mark := dev.Mark()
+			dev.Arm(p.op, p.style)
+			id := run.nextID() + "f"
+			out := run.set(id, step, nil, time.Minute, false)
+			rpcs := dev.Since(mark)
+			dev.ClearPlan()
+			run.canon = append(run.canon, fmt.Sprintf("WIRE-FAULT(%s,%s) %s", p.op, p.style, stepString(step)))
+			if out.convErr != nil || out.panicked {
+				return
+			}
+			struck := false
+			for _, r := range rpcs {
+				if r.Op == p.op && r.Style == p.style {
+					struck = true
+				}
+			}
+			if !struck {
+				// nothing to send (empty change): the fault could not strike
+				if out.err == nil {
+					run.ds.TransactionCancel(run.ctx, id)
+				}
+				continue
+			}
+			faults++
+			res.Count("wire_fault:"+p.op+":"+p.style, 1)
+			what := fmt.Sprintf("step %d, the device answers %s with %s [%s]", s, p.op, p.style, cfgDesc)
+			if out.err == nil {
+				res.Violate("C18/failure-swallowed", "%s: Set returned success; rpcs: %s", what, describe(rpcs))
+				run.ds.TransactionCancel(run.ctx, id)
+			}
+			if pend := dev.PendingDocs(); len(pend) > 0 {
+				key := "C18/uncommitted-leftovers-in-candidate"
+				if p.op == "commit" {
+					key = "C18/failed-commit-not-discarded"
+				}
+				res.Violate(key, "%s: Set returned (err=%v) and the candidate of the device still holds %d document(s); rpcs: %s", what, out.err, len(pend), describe(rpcs))
+				dev.DiscardByOperator()
+			}
+		}
+		if len(res.Findings) > 0 {
+			break
+		}
+		mark := dev.Mark()
+		warned := rng.Chance(1, 2)
+		if warned {
+			// the device accepts the edit and adds a warning: the transaction succeeds and reports it
+			dev.Arm(editOp, "warning")
+		}
+		ffOut, ok := run.commit(step)
+		dev.ClearPlan()
+		if !ok {
+			if warned {
+				res.Findings = res.Findings[:0]
+				res.Violate("C18/warning-reply-failed-the-set", "step %d [%s]: a reply carrying only an rpc-error of severity warning failed the transaction (err=%v): %s", s, cfgDesc, ffOut.err, describe(dev.Since(mark)))
+			}
+			return
+		}
+		rpcs := dev.Since(mark)
+		if warned && len(rpcs) > 0 && len(ffOut.rsp.GetWarnings()) == 0 {
+			res.Violate("C18/warning-not-reported", "step %d [%s]: the warning of the device is not in the response: %s", s, cfgDesc, describe(rpcs))
+		}
+		nEdit, nCommit := 0, 0
+		for _, r := range rpcs {
+			switch {
+			case strings.HasPrefix(r.Op, "edit-config"):
+				nEdit++
+				if r.Op != editOp {
+					res.Violate("C18/wrong-datastore", "step %d [%s]: %s", s, cfgDesc, r.Op)
+				}
+			case r.Op == "commit":
+				nCommit++
+			}
+		}
+		nChange := len(ffOut.rsp.GetUpdate()) + len(ffOut.rsp.GetDelete())
+		res.Count("wire_fault_free_sets", 1)
+		switch {
+		case nChange > 0 && nEdit != 1:
+			res.Violate("C18/change-not-sent", "step %d [%s]: the transaction changes the device (%s) and the device received %d edit-config: %s", s, cfgDesc, fixture.PayloadKey(ffOut.rsp.GetUpdate(), ffOut.rsp.GetDelete()), nEdit, describe(rpcs))
+		case nChange == 0 && nEdit > 0:
+			res.Violate("C18/edit-sent-without-change", "step %d [%s]: %s", s, cfgDesc, describe(rpcs))
+		case commitDS == "candidate" && nEdit == 1 && nCommit != 1:
+			res.Violate("C18/edit-without-commit", "step %d [%s]: %s", s, cfgDesc, describe(rpcs))
+		case commitDS == "running" && nCommit > 0:
+			res.Violate("C18/commit-on-running-target", "step %d [%s]: %s", s, cfgDesc, describe(rpcs))
+		}
+		if pend := dev.PendingDocs(); len(pend) > 0 {
+			res.Violate("C18/uncommitted-leftovers-in-candidate", "step %d [%s] fault-free: the candidate still holds %d document(s): %s", s, cfgDesc, len(pend), describe(rpcs))
+		}
+	}
+	res.Count("wire_faults", faults)
+	res.Hash = core.HashOf(append([]string{cfgDesc}, run.canon...)...)
+	res.NonTrivial = faults >= 2
+}
